@@ -48,6 +48,11 @@ fn exchange_once(ctx_rc: &crate::harness::SharedCtx, prefix: &str, reuse: Option
         cfg.domain = gen_string(&mut ctx, "domain", 40, !oem);
         cfg.user = simple_upper(&gen_string(&mut ctx, "user", 64, !oem));
         cfg.password = gen_string(&mut ctx, "password", 64, true);
+        if ctx.chance("long_password", 1, 16) {
+            let n = *ctx.pick("long_password_len", &[127usize, 128, 129, 255, 256, 257, 300, 1000]);
+            let c = *ctx.pick("long_password_char", &['x', 'é', '語', '😀']);
+            cfg.password = std::iter::repeat(c).take(n).collect();
+        }
         let mut use_hash = ctx.chance("use_hash", 1, 3);
         if let Some((_, c, h)) = &reuse {
             cfg = c.clone();
@@ -56,7 +61,12 @@ fn exchange_once(ctx_rc: &crate::harness::SharedCtx, prefix: &str, reuse: Option
         // OEM strings are only defined for ASCII here
         let oem = oem && cfg.domain.is_ascii() && cfg.user.is_ascii();
         seed_client_randomness(&mut ctx);
-        let nla = make_nla(&mut ctx, &cfg);
+        let mut nla = make_nla(&mut ctx, &cfg);
+        // a server may also announce 56-bit support next to 128 (128 wins)
+        if ctx.chance("negotiate_56_too", 1, 6) {
+            nla.challenge_cfg.extra_flags |= ntlm::NEG_56;
+            ctx.probe("negotiate_56_with_128");
+        }
         ctx.key_add(oem as u64 | (use_hash as u64) << 1 | (nla.challenge_cfg.with_version as u64) << 2 | (nla.challenge_cfg.target_info_first as u64) << 3);
         ctx.key_add(nla.challenge_cfg.av_pairs.len() as u64);
         ctx.key_add(cfg.user.chars().count() as u64);
@@ -88,6 +98,11 @@ fn exchange_once(ctx_rc: &crate::harness::SharedCtx, prefix: &str, reuse: Option
         // a server that negotiates OEM strings instead of Unicode
         challenge[20] = (challenge[20] & !0x01) | 0x02;
         ctx_rc.borrow_mut().probe("oem_negotiated");
+    }
+    if ctx_rc.borrow_mut().chance("domain_target", 1, 5) {
+        // the authentication target is a domain, not a stand-alone server (NTLMSSP_TARGET_TYPE_DOMAIN)
+        challenge[22] = (challenge[22] & !0x02) | 0x01;
+        ctx_rc.borrow_mut().probe("target_type_domain");
     }
     let ch2 = challenge.clone();
     let r = guard(|| client.read_challenge_message(&ch2));
@@ -276,6 +291,7 @@ pub fn run_c17(env: &mut Env) -> Outcome {
         cfg.blank = m & 4 != 0;
         cfg.auto_logon = m & 8 != 0;
         cfg.use_hash = m & 16 != 0;
+        cfg.builder_order = ctx.choose("builder_order", 3) as u8;
         let marker: String = (0..12).map(|_| (b'A' + ctx.choose("marker", 26) as u8) as char).collect();
         cfg.domain = gen_string(&mut ctx, "domain", 24, true);
         cfg.user = gen_string(&mut ctx, "user", 24, true);
@@ -295,7 +311,37 @@ pub fn run_c17(env: &mut Env) -> Outcome {
     let nla_res = if cfg.nla { Some(crate::scen::install_nla_custom(&world, &cfg, |n| { if no_seal { n.challenge_flags_clear = 0x20; } })) } else { None };
     if no_seal { ctxrc.borrow_mut().probe("challenge_without_seal"); }
     world.server.borrow_mut().keep_frames = true;
-    let mut s = match Session::connect(World { ctx: world.ctx.clone(), wire: world.wire.clone(), cfg: world.cfg.clone(), server: world.server.clone() }, &cfg) {
+    let mut connector = cfg.connector();
+    if ctxrc.borrow_mut().chance("earlier_failed_connection", 1, 6) {
+        // the same Connector was used before, for a connection that failed after the Client Info (licence refused
+        // or link lost): the options chosen by the application must survive that
+        let mut pp = ServerParams::default_for(if cfg.nla { 2 } else { 1 });
+        let lost_link = ctxrc.borrow_mut().chance("earlier_link_lost", 1, 2);
+        if !lost_link {
+            pp.license_error_code = 2;
+            pp.license_state_transition = 1;
+        }
+        let pworld = World::new(ctxrc.clone(), pp, crate::wire::NetCfg::benign());
+        if cfg.nla {
+            crate::scen::install_nla(&pworld, &cfg);
+        }
+        if lost_link {
+            // the server goes away instead of sending the licence
+            pworld.server.borrow_mut().mutator = Some(Box::new(|_ctx: &mut Ctx, name: &str, _w: &crate::refsrv::bytes::Wr| {
+                if name == "license" { crate::refsrv::server::MutOut::BytesThenFin(Vec::new()) } else { crate::refsrv::server::MutOut::Unchanged }
+            }));
+        }
+        match Session::connect_with(pworld, &cfg, &mut connector) {
+            Ok(s0) => {
+                if s0.connect_result.is_ok() {
+                    return viol("c17/session-not-established", "earlier-connection", "the earlier connection was meant to fail at licensing but succeeded".to_string());
+                }
+            }
+            Err(o) => return o,
+        }
+        ctxrc.borrow_mut().probe("earlier_failed_connection_same_connector");
+    }
+    let mut s = match Session::connect_with(World { ctx: world.ctx.clone(), wire: world.wire.clone(), cfg: world.cfg.clone(), server: world.server.clone() }, &cfg, &mut connector) {
         Ok(s) => s,
         Err(o) => return o,
     };
